@@ -17,6 +17,7 @@ pub mod c14;
 pub mod c15;
 pub mod c16;
 pub mod c17;
+pub mod c18;
 pub mod c20;
 pub mod pairs;
 pub mod util;
@@ -42,6 +43,7 @@ pub fn run(ctx: &Ctx) -> PropResult {
         "C15" => c15::run(ctx),
         "C16" => c16::run(ctx),
         "C17" => c17::run(ctx),
+        "C18" => c18::run(ctx),
         "C20" => c20::run(ctx),
         other => Err(format!("no monitor for {}", other)),
     }
